@@ -5,7 +5,7 @@
    evaluating `assignment_ok` on the read_assignments.tsv of real runs over generated annotations and reads. *)
 From Coq Require Import ZArith QArith List Bool.
 From IQ.gen Require Import Tables Prims.
-From IQ Require Import CorrSupport Intervals Junctions JunctionsProofs JunctionsTyping Assigner AssignerEnds.
+From IQ Require Import CorrSupport Intervals Junctions JunctionsProofs JunctionsTyping Assigner AssignerEnds AssignerPath.
 Require IQ.Corrector.
 Import ListNotations. Open Scope Z_scope.
 
@@ -254,6 +254,39 @@ Example C01_elongation_inside_needs_delta_le_extension_refuted :
 Proof. vm_compute. split; reflexivity. Qed.
 Example C01_verify_without_isoform_refuted : verify_read_ends (params_of MS_default) false 1 [(1, 10)] [(1, 10)] (mkPA 10 (-1) (-1) (-1)) [] = Ok [].
 Proof. exact verify_nonempty_without_isoform_refuted. Qed.
+
+(* ================================================================ (d) composition: the inconsistent path of the assigner for a read that follows T *)
+(* detect_inconsistensies for isoform T = comparator events ++ elongation events, then polyA verification.  For a read whose junctions
+   are a delta-sub-chain of T's (ends in the flanking exons), whose elongation events are consistent (C01_elongation_inside_consistent)
+   and whose polyA tail, if any, is at T's 3' end: every event is consistent, the penalty of T is the minimal one (0), and
+   classify_assignment answers a consistent type; conversely one major event among the selected isoforms excludes a consistent type *)
+Theorem C01_follows_events_consistent : forall P known rreg R ireg II elong strand iso rex pa out,
+  0 <= p_delta P -> R <> [] -> junctions_wf II = true -> chain_match (p_delta P) rreg R II = true ->
+  (forall e, In e elong -> ev_consistent (x_type e) = true) -> polya_ok P strand iso pa ->
+  detect_events P known rreg R ireg II elong strand iso rex pa = Ok out ->
+  forall e, In e out -> ev_consistent (x_type e) = true.
+Proof. exact follows_events_consistent. Qed.
+Print Assumptions C01_follows_events_consistent.
+Theorem C01_follows_penalty_minimal : forall w evsT evsO, (forall e, 0 <= w e) ->
+  (forall e, In e evsT -> ev_consistent (x_type e) = true) -> Qle (penalty_w w evsT) (penalty_w w evsO).
+Proof. exact follows_penalty_minimal. Qed.
+Print Assumptions C01_follows_penalty_minimal.
+Theorem C01_follows_classified_consistent : forall P known rreg R ireg II elong strand iso rex pa out,
+  0 <= p_delta P -> R <> [] -> junctions_wf II = true -> chain_match (p_delta P) rreg R II = true ->
+  (forall e, In e elong -> ev_consistent (x_type e) = true) -> polya_ok P strand iso pa ->
+  detect_events P known rreg R ireg II elong strand iso rex pa = Ok out ->
+  type_consistent (classify false (map x_type out)) = true.
+Proof. exact follows_classified_consistent. Qed.
+Print Assumptions C01_follows_classified_consistent.
+Theorem C01_follows_classified_consistent_multi : forall outs amb,
+  (forall o, In o outs -> forall e, In e o -> ev_consistent (x_type e) = true) ->
+  type_consistent (classify amb (concat (map (map x_type) outs))) = true.
+Proof. exact follows_classified_consistent_multi. Qed.
+Print Assumptions C01_follows_classified_consistent_multi.
+Theorem C01_major_event_blocks_consistent : forall amb outs o e, In o outs -> In e o -> ev_major (x_type e) = true ->
+  type_consistent (classify amb (concat (map (map x_type) outs))) = false.
+Proof. exact major_event_blocks_consistent. Qed.
+Print Assumptions C01_major_event_blocks_consistent.
 
 (* ================================================================ examples: the hypotheses are satisfiable, the corners are real *)
 Definition Pd := params_of MS_default.
